@@ -863,5 +863,13 @@ fn validate_endpoint(endpoint: &str) -> Result<()> {
         }
     }
 
+    // The endpoint becomes part of the cache key (a relative file path) and of the
+    // request URL: it must stay below its prefix, so no absolute form and no `.`/`..` segments.
+    if endpoint.starts_with('/') || endpoint.split('/').any(|s| s == "." || s == "..") {
+        return Err(ProtocolError::InvalidEndpoint(
+            "Endpoint must be relative and must not contain '.' or '..' segments".to_string(),
+        ));
+    }
+
     Ok(())
 }
